@@ -420,6 +420,27 @@ def writes_on_every_path(block, work, ivar):
     return False
 
 
+def guarded_write(block, work, ivar):
+    """(repr of the bitmap, polarity) when the loop body is `if [!]bitmap[ivar] { .. writes work[ivar] on every path .. }` and
+    nothing else; None for any other shape"""
+    b = core.strip_refs(block)
+    while b.get('k') == 'block':
+        items = [s_['e'] for s_ in b.get('stmts', []) if s_['k'] == 'expr'] + ([b['tail']] if b.get('tail') is not None else [])
+        if len(items) != 1 or any(s_['k'] != 'expr' for s_ in b.get('stmts', [])):
+            return None
+        b = core.strip_refs(items[0])
+    if b.get('k') != 'if' or b.get('else') is not None or not writes_on_every_path(b['then'], work, ivar):
+        return None
+    c = hcanon(b['cond'], {})
+    pol = True
+    while isinstance(c, tuple) and c[:2] == ('un', 'Not'):
+        pol = not pol
+        c = c[2]
+    if isinstance(c, tuple) and c[0] == 'index' and c[2] == ('local', ivar):
+        return (repr(strip_mutref(c[1])), pol)
+    return None
+
+
 def tiling_rule(ctx, facts, cfg):
     R = 'C05.d-decoder-tiling'
     for p, _ in CODEC_FNS[2:]:
@@ -438,6 +459,7 @@ def tiling_rule(ctx, facts, cfg):
             continue
         data = strip_mutref(transform_call(facts, first_tx['node'], first_tx['env'])[1])
         regions = []   # (start lin, end lin|None, descr, line)
+        partials, ones_loops = [], set()
         for e in ev.events:
             if e['order'] >= first_tx['order']:
                 break
@@ -453,6 +475,12 @@ def tiling_rule(ctx, facts, cfg):
                     regions.append((s_c, e_c, 'zero', e['node'].get('line')))
             elif e['kind'] == 'for':
                 rng = core.is_range_struct(e['iter'])
+                it0 = core.strip_refs(e['iter'])
+                if rng is None and it0.get('k') == 'mcall' and it0.get('name') == 'ones' and (it0.get('path') or '').endswith('FixedBitSet::ones') \
+                        and e['pat'].get('k') == 'bind' and precedes_on_every_path(e, first_tx) and writes_on_every_path(e['body'], data, e['pat']['name']):
+                    # `for pos in bitmap.ones() { write work[pos] }`: every position whose bit is set is written
+                    ones_loops.add(repr(hcanon(it0['recv'], {})))
+                    continue
                 if rng is None or e['pat'].get('k') != 'bind' or not precedes_on_every_path(e, first_tx):
                     continue
                 st, en, inc = rng
@@ -462,9 +490,23 @@ def tiling_rule(ctx, facts, cfg):
                 if writes_on_every_path(e['body'], data, ivar):
                     regions.append((hcanon(st, e['env']), hcanon(en, e['env']), 'for-loop writing %s[%s] on every path' % (hshow(data), ivar), e['node'].get('line')))
                 elif writes_work_elem(e['body'], data, ivar):
-                    ctx.violation(R, 'partial-loop:%s' % hshow(hcanon(st, e['env'])),
-                                  'loop over %s..%s writes %s[%s] only on some paths of its body (missing shards keep stale bytes from an earlier round)'
-                                  % (hshow(hcanon(st, e['env'])), hshow(hcanon(en, e['env'])), hshow(data), ivar), site=e['node'].get('line'), fn=p, cfg=cfg)
+                    partials.append((hcanon(st, e['env']), hcanon(en, e['env']), guarded_write(e['body'], data, ivar), ivar, e['node'].get('line')))
+        # two loops over the same positions that write under complementary tests of one bitmap, or one that writes where the bit is
+        # clear next to a loop over the set bits, define every position between them
+        for i_, (st_c, en_c, gw, ivar, line) in enumerate(partials):
+            mate = None
+            if gw is not None:
+                for j_, (st2, en2, gw2, _, _) in enumerate(partials):
+                    if j_ != i_ and gw2 is not None and lin(st2) == lin(st_c) and lin(en2) == lin(en_c) and gw2[0] == gw[0] and gw2[1] != gw[1]:
+                        mate = 'the loop writing under the opposite test'
+                if mate is None and gw[1] is False and gw[0] in ones_loops:
+                    mate = 'the loop over the set bits'
+            if mate is not None:
+                regions.append((st_c, en_c, 'for-loop writing %s[%s] where the bit is %s, with %s' % (hshow(data), ivar, 'set' if gw[1] else 'clear', mate), line))
+            else:
+                ctx.violation(R, 'partial-loop:%s' % hshow(st_c),
+                              'loop over %s..%s writes %s[%s] only on some paths of its body (missing shards keep stale bytes from an earlier round)'
+                              % (hshow(st_c), hshow(en_c), hshow(data), ivar), site=line, fn=p, cfg=cfg)
         # tile
         by_start = {}
         for r in regions:
@@ -664,6 +706,40 @@ def handover_rule(ctx, facts, cfg):
                                               'fast_path': 'skipped only behind %s(..) comparing every configured field with the arguments the reset would get; the round state is cleared there' % core.short(fp)})
                 break
             why = '%s does not run the explicit reset of its work argument before every Ok return' % core.short(q)
+        if not good:
+            # by-value form: `let work = Self::prepare(.., work);` -- the helper takes the work object, runs the explicit reset on
+            # it and gives it back; what it returns is what the codec stores
+            from . import roles as roles_mod
+            full_reset = roles_mod.roles(facts).fn.get(('enc' if work_adt == roles_mod.ENC_WORK else 'dec') + '.reset')
+            for cb, t in body.calls():
+                g = facts.fns.get(t['callee'].get('path'))
+                if g is None or g.reachable or (g.output or '') != work_adt or t['dest']['p']:
+                    continue
+                arg_i = [i for i, a_ in enumerate(t['args']) if core.op_place(a_) and not core.op_place(a_)['p'] and body.local_ty(core.op_place(a_)['l']) == work_adt]
+                if len(arg_i) != 1 or not ok_blocks or not all(body.dominates(cb, ob) for ob in ok_blocks):
+                    continue
+                dl = t['dest']['l']
+                stored = False
+                for bb in range(body.n):
+                    for st in body.blocks[bb]['stmts']:
+                        if st['k'] == 'assign' and st['rv']['k'] == 'agg' and st['rv'].get('adt') == fn.impl_self_adt:
+                            d = dict(zip(st['rv']['fields'], st['rv']['ops']))
+                            c = body.canon_op(d.get('work'), expand_named=False) if d.get('work') else None
+                            pl_ = core.op_place(d.get('work')) if d.get('work') else None
+                            if (c and c[0] == 'var' and c[2] == dl) or (pl_ and pl_['l'] == dl and not pl_['p']) or (c and c[0] == 'call' and len(c) > 3 and c[3] == cb):
+                                stored = True
+                if not stored:
+                    continue
+                gb = g.body
+                pname = g.param_names()[arg_i[0]] if arg_i[0] < len(g.param_names()) else None
+                resets = [(b_, t2) for b_, t2 in gb.calls() if t2['callee'].get('path') == full_reset and gb.canon_op(t2['args'][0]) in (('param', pname), ('ref', ('param', pname)))]
+                rets = [b_ for b_ in range(gb.n) if gb.term(b_)['k'] == 'return']
+                gives_back = len(rets) == 1 and core.strip_var_ids(gb.canon_local(0)) == ('param', pname)
+                if resets and rets and gives_back and all(any(gb.dominates(b_, rb_) for b_, _ in resets) for rb_ in rets):
+                    good = True
+                    ctx.ok(R, '%s@%s' % (p, cfg), {'via': core.short(g.path), 'reset_at': resets[0][1]['line'], 'form': 'work object passed and returned by value'})
+                    break
+                why = '%s does not run the explicit reset of the work object it is given before returning it' % core.short(g.path)
         if not good:
             ctx.violation(R, 'new-skips-reset', '%s can return Ok without passing the stored working space through the explicit reset (%s): contents and bookkeeping of a work object taken over from another codec survive'
                           % (p, why), site=fn.span, fn=p, cfg=cfg)
